@@ -30,4 +30,5 @@ def run(prog: Program, col: Collector, tier: str, refs: Optional[Refs] = None, c
     algebra.r_apply_optimizer(prog, col, refs, cat, "R08.4")
     algebra.r_unit_elimination(prog, col, refs, cat, "R08.5")
     algebra.r_pushdown(prog, col, refs, cat, "R08.6")
+    algebra.r_same_op(prog, col, refs, cat, "R08.7")
     return col
